@@ -78,7 +78,9 @@ func (c *Ctx) checkCodec(p *packages.Package, rel string, fobj *types.Func) {
 	caseTypes := map[int64][]types.Type{}
 	casePos := map[int64]ast.Node{}
 	found := false
-	ast.Inspect(fd.Body, func(n ast.Node) bool {
+	swBody, swTag, _ := c.tagSwitchOwner(p, fd, tagParam, 2)
+	tagParam = swTag
+	ast.Inspect(swBody, func(n ast.Node) bool {
 		sw, ok := n.(*ast.SwitchStmt)
 		if !ok || sw.Tag == nil {
 			return true
@@ -304,65 +306,125 @@ func (c *Ctx) checkHandwrittenDecoders() {
 
 // checkKindsChecked: every store into a receiver field takes a value that comes from a comma-ok type assertion,
 // and the failure edge of every comma-ok assertion cannot reach a success return.
-func (c *Ctx) checkKindsChecked(fn *ssa.Function, key string, list *ssa.Alloc) {
-	succ := successReturns(fn)
+func (c *Ctx) checkKindsChecked(top *ssa.Function, key string, list *ssa.Alloc) {
+	// units: the decoder and the same-package helpers it hands its receiver to (p.setFromPair(elems[0], elems[1]))
+	type unit struct {
+		fn   *ssa.Function
+		recv ssa.Value
+	}
+	units := []unit{{top, top.Params[0]}}
+	seenU := map[*ssa.Function]bool{top: true}
+	for i := 0; i < len(units) && i < 8; i++ {
+		u := units[i]
+		for _, ci := range allCalls(u.fn) {
+			h := samePkgHelper(u.fn, ci.Common())
+			if h == nil || seenU[h] || ci.Common().StaticCallee() != h {
+				continue
+			}
+			for ai, a := range ci.Common().Args {
+				if rootValue(a, 0) != u.recv || ai >= len(h.Params) {
+					continue
+				}
+				seenU[h] = true
+				units = append(units, unit{h, h.Params[ai]})
+				// the helper's verdict must reach the decoder's caller: after the call, a nil error is returned only
+				// behind the helper-result == nil edge, or the helper's result is itself what is returned
+				ei := errorResultIndex(h)
+				if ei < 0 {
+					c.Undecided("%s: helper %s stores into the receiver but reports no error", key, ssaFuncKey(h))
+				}
+				var sinks []ssa.Instruction
+				for _, r := range successReturns(u.fn) {
+					ret := r.(*ssa.Return)
+					rv := returnedValue(ret, errorResultIndex(u.fn))
+					if rv == ci.Value() {
+						continue
+					}
+					if ex, ok := rv.(*ssa.Extract); ok && ex.Tuple == ci.Value() && ex.Index == ei {
+						continue
+					}
+					sinks = append(sinks, r)
+				}
+				after := reachFromAvoiding([]*ssa.BasicBlock{ci.Block()}, nil)
+				hk := "call:" + ssaFuncKey(h) + "("
+				vs := c.mustPass(u.fn, sinks, func(f string) bool {
+					return strings.HasPrefix(f, hk) && (strings.HasSuffix(f, ") == nil") || strings.HasSuffix(f, fmt.Sprintf(")#%d == nil", ei)))
+				})
+				for si, r := range sinks {
+					if !after[r.Block()] && r.Block() != ci.Block() {
+						continue
+					}
+					c.Check(vs[si].OK, "decoder-kind-failure-rejected", key+":via:"+h.Name(), r.Pos(), "the helper's rejection is propagated", "the decoder can return nil although "+h.Name()+" rejected an element ("+vs[si].Witness+")")
+				}
+				break
+			}
+		}
+	}
 	nStore := 0
-	for _, b := range fn.Blocks {
-		for _, in := range b.Instrs {
-			st, ok := in.(*ssa.Store)
-			if !ok {
-				continue
-			}
-			if rootValue(st.Addr, 0) != fn.Params[0] {
-				continue
-			}
-			if _, isFA := st.Addr.(*ssa.FieldAddr); !isFA {
-				continue
-			}
-			nStore++
-			d := desc(st.Val)
-			ok2 := strings.Contains(d, "assert(") && strings.Contains(d, "#0") || isSmallConst(st.Val)
-			// a struct value assembled locally: look at what was stored into its fields
-			if ld, isLoad := st.Val.(*ssa.UnOp); isLoad && !ok2 {
-				if al, isAlloc := ld.X.(*ssa.Alloc); isAlloc {
-					all, any := true, false
-					for _, u := range referrersOf(al) {
-						fa, isFA := u.(*ssa.FieldAddr)
-						if !isFA {
-							continue
-						}
-						for _, u2 := range referrersOf(fa) {
-							if st2, isSt := u2.(*ssa.Store); isSt && st2.Addr == fa {
-								any = true
-								d2 := desc(st2.Val)
-								if !(strings.Contains(d2, "assert(") && strings.Contains(d2, "#0")) && !isSmallConst(st2.Val) {
-									all = false
-									d = d2
+	for _, u := range units {
+		fn := u.fn
+		succ := successReturns(fn)
+		for _, b := range fn.Blocks {
+			for _, in := range b.Instrs {
+				st, ok := in.(*ssa.Store)
+				if !ok {
+					continue
+				}
+				if rootValue(st.Addr, 0) != u.recv {
+					continue
+				}
+				if _, isFA := st.Addr.(*ssa.FieldAddr); !isFA {
+					continue
+				}
+				nStore++
+				d := desc(st.Val)
+				ok2 := strings.Contains(d, "assert(") && strings.Contains(d, "#0") || isSmallConst(st.Val)
+				// a struct value assembled locally: look at what was stored into its fields
+				if ld, isLoad := st.Val.(*ssa.UnOp); isLoad && !ok2 {
+					if al, isAlloc := ld.X.(*ssa.Alloc); isAlloc {
+						all, any := true, false
+						for _, u := range referrersOf(al) {
+							fa, isFA := u.(*ssa.FieldAddr)
+							if !isFA {
+								continue
+							}
+							for _, u2 := range referrersOf(fa) {
+								if st2, isSt := u2.(*ssa.Store); isSt && st2.Addr == fa {
+									any = true
+									d2 := desc(st2.Val)
+									if !(strings.Contains(d2, "assert(") && strings.Contains(d2, "#0")) && !isSmallConst(st2.Val) {
+										all = false
+										d = d2
+									}
 								}
 							}
 						}
+						ok2 = any && all
 					}
-					ok2 = any && all
+				}
+				fieldKey := "recv." + fieldName(st.Addr.(*ssa.FieldAddr).X.Type(), st.Addr.(*ssa.FieldAddr).Field)
+				if fn == top {
+					fieldKey = desc(st.Addr)
+				}
+				c.Check(ok2, "decoder-kinds-checked", fmt.Sprintf("%s:%s", key, fieldKey), st.Pos(), "field value comes from a checked kind assertion on a decoded element", "field is set from "+d+", not from a checked kind assertion on the decoded element")
+			}
+		}
+		for _, ef := range edgeFacts(fn) {
+			if !strings.HasPrefix(ef.Fact, "F:assert(") || !strings.HasSuffix(ef.Fact, "#1") {
+				continue
+			}
+			after := reachFromAvoiding([]*ssa.BasicBlock{ef.From}, func(from *ssa.BasicBlock, i int) bool { return from == ef.From && i != ef.Succ })
+			bad := false
+			for _, r := range succ {
+				if after[r.Block()] {
+					bad = true
 				}
 			}
-			c.Check(ok2, "decoder-kinds-checked", fmt.Sprintf("%s:%s", key, desc(st.Addr)), st.Pos(), "field value comes from a checked kind assertion on a decoded element", "field is set from "+d+", not from a checked kind assertion on the decoded element")
+			c.Check(!bad, "decoder-kind-failure-rejected", key+":"+shortArg(ef.Fact), ef.From.Instrs[len(ef.From.Instrs)-1].Pos(), "a wrong element kind cannot end in success", "a failed kind assertion can still end in a nil error: the element is silently skipped or coerced")
 		}
 	}
 	if nStore == 0 {
-		c.Bad("decoder-kinds-checked", key, fn.Pos(), "decoder stores nothing into its receiver")
-	}
-	for _, ef := range edgeFacts(fn) {
-		if !strings.HasPrefix(ef.Fact, "F:assert(") || !strings.HasSuffix(ef.Fact, "#1") {
-			continue
-		}
-		after := reachFromAvoiding([]*ssa.BasicBlock{ef.From}, func(from *ssa.BasicBlock, i int) bool { return from == ef.From && i != ef.Succ })
-		bad := false
-		for _, r := range succ {
-			if after[r.Block()] {
-				bad = true
-			}
-		}
-		c.Check(!bad, "decoder-kind-failure-rejected", key+":"+shortArg(ef.Fact), ef.From.Instrs[len(ef.From.Instrs)-1].Pos(), "a wrong element kind cannot end in success", "a failed kind assertion can still end in a nil error: the element is silently skipped or coerced")
+		c.Bad("decoder-kinds-checked", key, top.Pos(), "decoder stores nothing into its receiver")
 	}
 }
 
